@@ -31,6 +31,17 @@ PROPS = {
     "C08": {"jobs": [
         rapid("C08a", 1500, 6000, shrinktime="15s"),
     ]},
+    "C10": {"jobs": [
+        rapid("C10a", 1500, 6000, shrinktime="15s"),
+    ]},
+    "C11": {"jobs": [
+        rapid("C11a", 1200, 5000, shrinktime="15s"),
+    ]},
+    "C13": {"jobs": [
+        rapid("C13a", 1500, 6000, shrinktime="15s"),
+        rapid("C13b", 1500, 8000, shrinktime="15s", race_shards=1),
+        rapid("C13c", 12, 40, shards=1),
+    ]},
     "C15": {"jobs": [
         rapid("C15a", 6000, 30000),
         rapid("C15b", 20000, 100000),
